@@ -29,14 +29,15 @@ Acceptors(e) == {s \in Steps : e.ty \in Accepts(s) /\ (e.target = "*" \/ e.targe
 \* by counting);  scount: <<step, uid>> -> number of deliveries (first-attempt executions);  retry: <<step, uid>> -> failed
 \* executions whose retry has not started yet
 St0 == [run |-> 0, emitted |-> {}, started |-> {}, mayretry |-> {}, waitgot |-> {}, unh |-> <<>>, bad |-> "ok",
-        done |-> {}, carry |-> {}, resumed |-> FALSE, ecount |-> <<>>, scount |-> <<>>, retry |-> <<>>]
+        done |-> {}, carry |-> {}, resumed |-> FALSE, ecount |-> <<>>, scount |-> <<>>, retry |-> <<>>, wtook |-> {}]
 UnhGet(u, k) == IF k \in DOMAIN u THEN u[k] ELSE 0
 UnhInc(u, k) == [x \in (DOMAIN u) \cup {k} |-> IF x = k THEN UnhGet(u, k) + 1 ELSE u[x]]
 UnhDec(u, k) == [x \in DOMAIN u |-> IF x = k THEN u[x] - 1 ELSE u[x]]
 
 (* emitted events nobody takes: no accepting step and not consumed as a wait result *)
+\* (wtook: uids that resolved a waiter according to the reducer state -- taken even if the run ends before the step returns)
 Orphans(s0, ty, target) == {e \in s0.emitted : e.ty = ty /\ e.target = target /\ Acceptors(e) = {}
-                                               /\ ~(\E x \in s0.waitgot : x[2] = e.uid) /\ e.ty # "Ask"}
+                                               /\ ~(\E x \in s0.waitgot : x[2] = e.uid) /\ e.uid \notin s0.wtook /\ e.ty # "Ask"}
 
 Apply(s, r) ==
   LET s0 == IF r.run # s.run THEN [St0 EXCEPT !.run = r.run, !.carry = s.carry \cup s.done, !.resumed = s.run # 0] ELSE s IN
@@ -61,6 +62,7 @@ Apply(s, r) ==
                             ELSE @]
     [] r.e = "step_end" /\ r.failed -> [s0 EXCEPT !.mayretry = @ \cup {<<r.step, r.uid>>}, !.retry = UnhInc(@, <<r.step, r.uid>>)]
     [] r.e = "step_end" /\ ~r.failed /\ ~r.cancelled -> [s0 EXCEPT !.done = @ \cup {<<r.step, r.uid>>}]
+    [] r.e = "wait_took" -> [s0 EXCEPT !.wtook = @ \cup {r.uid}]
     [] r.e = "wait_ret" -> [s0 EXCEPT !.waitgot = @ \cup {<<r.step, r.got_uid>>},
                                       !.bad = IF <<r.step, r.got_uid>> \in s0.started THEN "wait_result_also_delivered_as_input" ELSE @]
     [] r.e = "pub" /\ r.p.k = "unhandled" ->
@@ -74,7 +76,7 @@ Apply(s, r) ==
                     UnhGet(s0.scount, <<x, e.uid>>) + (IF <<x, e.uid>> \in s0.waitgot THEN 1 ELSE 0) < UnhGet(s0.ecount, e.uid)
                     /\ ~(s0.resumed /\ <<x, e.uid>> \in s0.started)
               THEN "event_never_delivered_to_accepting_step"
-            ELSE IF \E e \in s0.emitted : Acceptors(e) = {} /\ e.ty # "Ask" /\ ~(\E x \in s0.waitgot : x[2] = e.uid)
+            ELSE IF \E e \in s0.emitted : Acceptors(e) = {} /\ e.ty # "Ask" /\ ~(\E x \in s0.waitgot : x[2] = e.uid) /\ e.uid \notin s0.wtook
                                           /\ UnhGet(s0.unh, <<e.ty, e.target>>) < Cardinality(Orphans(s0, e.ty, e.target))
               THEN "unhandled_event_not_reported"
             ELSE @]
@@ -82,7 +84,7 @@ Apply(s, r) ==
     \* points), so an orphan among those must have been reported by now
     [] r.e = "drained" /\ ~r.live_run ->
          [s0 EXCEPT !.bad =
-            IF \E e \in s0.emitted : e.ext /\ Acceptors(e) = {} /\ e.ty # "Ask" /\ ~(\E x \in s0.waitgot : x[2] = e.uid)
+            IF \E e \in s0.emitted : e.ext /\ Acceptors(e) = {} /\ e.ty # "Ask" /\ ~(\E x \in s0.waitgot : x[2] = e.uid) /\ e.uid \notin s0.wtook
                                       /\ UnhGet(s0.unh, <<e.ty, e.target>>) < Cardinality({o \in Orphans(s0, e.ty, e.target) : o.ext})
               THEN "unhandled_event_not_reported"
             ELSE @]
